@@ -63,7 +63,7 @@ def build(job):
     from vlib.e1jobs import in_order_filter
 
     return Explorer(w, workload, [QuiescenceMonitor(fault_free_dlq=True)], job.get("budget"),
-                    max_states=job.get("max_states", 150000), time_cap=job.get("time_cap", 1500),
+                    max_states=job.get("max_states", 150000), time_cap=job.get("time_cap", 600),
                     actions_filter=in_order_filter if job.get("in_order") else None)
 
 
